@@ -112,11 +112,14 @@ Proof.
       eapply compare_path_asym; eauto. }
   (* the link target is already there *)
   assert (Hlink : forall bb, In (b, bb) B -> is_hardlink b = true ->
-            exists t, alookup (st_linkname b) D = Some t /\ st_is_dir (de_stat t) = false /\ de_bytes t = bb).
-  { intros bb Hin Hl. destruct (links_canon_ok _ HlB b bb Hin Hl) as (st & bt & Ht & Ep & Hlt & Hr & Eb).
+            exists t, alookup (st_linkname b) D = Some t /\ st_is_dir (de_stat t) = false /\ de_bytes t = bb /\
+                      (* the target was added with the stat as sent, a canonical link entry carries the same metadata *)
+                      link_stat (de_stat t) b = b).
+  { intros bb Hin Hl. destruct (HlB b bb Hin Hl) as (st & bt & Ht & Ep & Hlt & Hr & _ & Hmeta & Eb).
     assert (Hst : In st done) by (apply Hdone; [apply (in_map fst _ _ Ht)|exact Hlt]).
     destruct (mi_a _ _ Hinv st bt Ht Hst) as (t & Hxt & Es & Hbt).
-    exists t. rewrite <- Ep. split; auto. split; [rewrite Es; apply is_reg_not_dir; auto|]. rewrite (Hbt Hr). auto. }
+    exists t. rewrite <- Ep. split; auto. split; [rewrite Es; apply is_reg_not_dir; auto|].
+    split; [rewrite (Hbt Hr); auto|]. rewrite Es. apply link_stat_honest. exact Hmeta. }
   destruct (B_efind B HsB b Hb) as (bb & Hbb & _).
   destruct (apply_map_add_ok src D n (st_path b) b) as (D' & n' & Ea).
   { intros Hl. destruct (Hlink bb Hbb Hl) as (t & Ht & Htd & _). eauto. }
@@ -138,10 +141,15 @@ Proof.
       * destruct (at_or_below (st_path b) (st_path b0)) eqn:Ab; [|rewrite andb_false_r; exact He].
         apply at_or_below_le in Ab. exfalso. apply Ab, F1, Hd0.
       * intros Ep. specialize (F1 _ Hd0). rewrite Ep, compare_path_refl in F1. discriminate.
-    + destruct (apply_map_at src _ _ _ _ _ _ _ Hk Ea) as (e & He & Es & Hc). exists e. split; auto. split; auto.
-      intros Hreg. destruct Hc as [(Hdir & _)|[(Hl & _ & t & Ht & _ & _ & Eb)|(Hl & _ & _ & Eb & _)]].
+    + destruct (apply_map_at src _ _ _ _ _ _ _ Hk Ea) as (e & He & Es & Hc). exists e. split; auto. split.
+      { destruct (is_hardlink b) eqn:Hhl; [|auto].
+        destruct Hc as [(Hdir & _)|[(_ & _ & t & Ht & _ & _ & _ & Est)|(Hl & _)]]; [| |congruence].
+        - unfold is_hardlink, AbsDest.is_reg in Hhl. rewrite Hdir in Hhl. discriminate.
+        - destruct (Hlink bb0 Hin0 eq_refl) as (t' & Ht' & _ & _ & Ehon). rewrite Ht in Ht'. inversion Ht'; subst t'.
+          rewrite Est. exact Ehon. }
+      intros Hreg. destruct Hc as [(Hdir & _)|[(Hl & _ & t & Ht & _ & _ & Eb & _)|(Hl & _ & _ & Eb & _)]].
       * apply is_reg_not_dir in Hreg. congruence.
-      * destruct (Hlink bb0 Hin0 Hl) as (t' & Ht' & _ & Ebt). rewrite Ht in Ht'. inversion Ht'; subst. congruence.
+      * destruct (Hlink bb0 Hin0 Hl) as (t' & Ht' & _ & Ebt & _). rewrite Ht in Ht'. inversion Ht'; subst. congruence.
       * rewrite Eb, (not_hardlink_wants _ Hreg Hl). apply (src_at B HsB); auto.
   - (* covered *)
     intros p Hn (b' & Hb' & Hd' & Hab'). destruct (Hnotin p Hn) as [Hn1 Hn2].
